@@ -104,7 +104,7 @@ impl Prop for C18 {
         vec![("vanish-with-targets", 0.15), ("remove-present", 0.3)]
     }
     fn release_fraction(&self, tier: Tier) -> f64 {
-        tier.pick(0.3, 0.5)
+        tier.pick(0.3, 0.1)
     }
     fn max_shrink_iters(&self) -> u32 {
         400
